@@ -23,6 +23,9 @@ pub enum Case {
     /// raw fuzz inputs (corpus / crash replay)
     RawDecode { hex: String },
     RawProto { hex: String },
+    /// a well-formed commitment vector with 65536 + extra entries (its length does not fit the u16 threshold
+    /// fields) handed to entry point `which`: 0 dkg::part2, 1 PublicKeyPackage::from_commitment, 2 KeyPackage::try_from(SecretShare)
+    Huge { which: u8, extra: u16, seed: u64 },
 }
 
 impl Property for C14 {
@@ -38,7 +41,8 @@ impl Property for C14 {
          script (bit flips, byte sets, truncation, extension, splicing with an encoding of another type or another suite, count/length \
          inflation) and decoded; messages: for each of 22 protocol entry points that consume peer material a generated mutation script \
          (drop, swap, re-key, other-session/other-run entries, attacker-chosen well-typed values incl. identity elements and zero scalars, \
-         empty and oversized maps, commitments of length 0/1/t-1/t+1/300, thresholds 0/1/65535/None) is applied to cached honest transcripts \
+         empty and oversized maps, commitments of length 0/1/t-1/t+1/300 - and, as separate cases, 65536..65539 entries for dkg::part2, \
+         PublicKeyPackage::from_commitment and KeyPackage::try_from(SecretShare) -, thresholds 0/1/65535/None) is applied to cached honest transcripts \
          while the caller's own secret state stays honest. Oracle: no panic (overflow checks and debug assertions on), plus: accepted \
          encodings round-trip, Ok(signature) verifies, Ok(key material) is consistent. The committed corpus is replayed; the thorough tier \
          adds coverage-guided libFuzzer campaigns on both targets. One evaluation per decoded string / script. non-trivial = every input \
@@ -73,6 +77,13 @@ impl Property for C14 {
         for e in 0..N_ENTRIES as u32 {
             v.push((1000 + e, per_entry));
         }
+        // oversized commitment vectors: part2 for every suite (cheap), the two entry points that evaluate the
+        // whole vector only for the fast suites
+        v.push((2000, tier.pick(2, 8)));
+        if !slow {
+            v.push((2001, tier.pick(1, 3)));
+            v.push((2002, tier.pick(1, 3)));
+        }
         v
     }
     fn chunk(&self, _suite: SuiteId) -> u32 {
@@ -82,7 +93,10 @@ impl Property for C14 {
         512
     }
     fn strategy(&self, _suite: SuiteId, _tier: Tier, stratum: u32) -> BoxedStrategy<Case> {
-        if stratum >= 1000 {
+        if stratum >= 2000 {
+            let which = (stratum - 2000) as u8;
+            (0u16..4, any::<u64>()).prop_map(move |(extra, seed)| Case::Huge { which, extra, seed }).boxed()
+        } else if stratum >= 1000 {
             let entry = (stratum - 1000) as u8;
             (0u8..2, proptest::collection::vec(any::<u8>(), 0..160)).prop_map(move |(world, bytes)| Case::Script { entry, world, bytes }).boxed()
         } else {
@@ -101,6 +115,9 @@ impl Property for C14 {
         v.push(("op:truncate".into(), m));
         v.push(("op:inflate".into(), m));
         v.push(("corpus-replay".into(), 100));
+        v.push(("huge-commitment:part2".into(), 6));
+        v.push(("huge-commitment:from_commitment".into(), 3));
+        v.push(("huge-commitment:key-package-from-secret-share".into(), 3));
         v
     }
     fn check(&self, suite: SuiteId, case: &Case, ctx: &mut Ctx) -> CheckResult {
@@ -257,6 +274,7 @@ fn check<C: Worlds>(case: &Case, ctx: &mut Ctx) -> CheckResult {
             ctx.eval(&format!("raw-proto,{:x}", fnv(hex)), true);
             no_panic("C14", || fuzz_entry::proto(&b))
         }
+        Case::Huge { which, extra, seed } => huge::<C>(*which, *extra, *seed, ctx),
     }
 }
 
@@ -464,4 +482,49 @@ fn minimise(prop: &str, target: &str, mut data: Vec<u8>) -> Vec<u8> {
         step /= 2;
     }
     data
+}
+
+
+/// a peer's (valid) commitment padded to 65536 + extra entries
+fn huge<C: Worlds>(which: u8, extra: u16, seed: u64, ctx: &mut Ctx) -> CheckResult {
+    use crate::common::*;
+    use frost_core::keys::dkg::{self, round1};
+    use frost_core::keys::{CoefficientCommitment, KeyPackage, PublicKeyPackage, SecretShare, VerifiableSecretSharingCommitment};
+    let l = 65536usize + (extra % 4) as usize;
+    let shape = Shape { n: 2, t: 2 };
+    let mut idv = make_ids::<C>(IdSpec { style: IdStyle::Default, seed: 0 }, 2);
+    idv.sort();
+    let run = dkg_rounds::<C>(shape, &idv, seed, "C14")?;
+    let (me, peer) = (idv[0], idv[1]);
+    let pkg = &run.r1_pkg[&peer];
+    let mut coeffs = pkg.commitment().coefficients().to_vec();
+    coeffs.resize(l, CoefficientCommitment::new(gen_::<C>() * sc_rand_nonzero::<C>(seed ^ 0x4u64)));
+    let big = VerifiableSecretSharingCommitment::<C>::new(coeffs);
+    let name = ["part2", "from_commitment", "key-package-from-secret-share"][(which % 3) as usize];
+    ctx.eval(&format!("huge,{name},{l}"), true);
+    ctx.label(&format!("huge-commitment:{name}"));
+    match which % 3 {
+        0 => {
+            let mut r1 = std::collections::BTreeMap::new();
+            r1.insert(peer, round1::Package::new(big, *pkg.proof_of_knowledge()));
+            let sec = run.r1_secret[&me].clone();
+            no_panic("C14", move || {
+                let _ = dkg::part2(sec, &r1);
+            })
+        }
+        1 => {
+            let ids: std::collections::BTreeSet<Id<C>> = [me].into_iter().collect();
+            no_panic("C14", move || {
+                let _ = PublicKeyPackage::<C>::from_commitment(&ids, &big);
+            })
+        }
+        _ => {
+            // the share the peer addressed to us, with the padded commitment
+            let share = *run.r2_pkg[&peer][&me].signing_share();
+            let ss = SecretShare::<C>::new(me, share, big);
+            no_panic("C14", move || {
+                let _ = KeyPackage::<C>::try_from(ss);
+            })
+        }
+    }
 }
